@@ -16,6 +16,7 @@ import KafkaVerif.Model.ConnMux
 import KafkaVerif.Model.TransportConn
 import KafkaVerif.Spec.MuxMonitor
 import KafkaVerif.Model.BatchBytes
+import KafkaVerif.Model.ConnDeadline
 
 namespace KV.OracleC06
 open KV
@@ -195,6 +196,35 @@ def handle (ver offset declared stream ops impl : String) : String :=
 
 end BB
 
+namespace DL
+open KV.ConnDeadline
+
+/-- `A<o>` attach, `R` release (with the detach the discipline demands), `S<o><t>` SetRead/WriteDeadline -/
+def parseEv (w : String) : Option Event :=
+  let obj : Char → Option Obj := fun c => if c == 'r' then some .r else if c == 'w' then some .w else none
+  match w.toList with
+  | ['R'] => some (.release true)
+  | 'A' :: c :: [] => (obj c).map .attach
+  | 'S' :: c :: t => match obj c, (String.ofList t).toNat? with
+    | some o, some n => some (.set o n)
+    | _, _ => none
+  | _ => none
+
+/-- the script ends with a read in progress: what governs it, by the model, is the socket's read deadline -/
+def handle (script impl : String) : String :=
+  match (commaList script).mapM parseEv with
+  | none => "bad-op"
+  | some es =>
+    match run es with
+    | none => "model=reject holds=0"
+    | some s =>
+      let model := match s.holder with
+        | some _ => if s.sock == 0 then "ok" else "timeout"
+        | none => "idle"
+      -- monitor: a read whose own deadline object says "none" is not ended by a deadline
+      answer model (impl == "ok")
+end DL
+
 def step (line : String) : String :=
   match line.splitOn " => " with
   | [req, impl] =>
@@ -202,6 +232,7 @@ def step (line : String) : String :=
     | ["mux", stream, events, tags, noPayload] => Mux.handle stream events tags noPayload impl
     | ["tconn", journals, events, tags] => TConn.handle journals events tags impl
     | ["bb", ver, offset, declared, stream, ops] => BB.handle ver offset declared stream ops impl
+    | ["dl", _, script] => DL.handle script impl
     | ["bbc", _, _, declared, stream, _] =>
       -- paths without a result-level model (record batches, compression): only the conclusion of
       -- `wire_discipline_consumes_frame` is applied to what was observed — a kept Conn consumed the declared frame
